@@ -148,6 +148,41 @@ func commentText(r *RNG, enc string, light bool) []byte {
 		n = pick(r, []int{30000, 33000, 70000}) // a comment line longer than common buffer sizes (64 KiB) in either encoding
 	}
 	var b []byte
+	if enc != "ascii" && !light && r.Chance(1, 10) {
+		// a long run of one kind of character: the extremes of the size ratio between the two encodings
+		// (half-width katakana: 1 byte in Shift_JIS, 3 in UTF-8; double-byte: 2 and 3; ASCII: 1 and 1)
+		m := pick(r, []int{20, 60, 200, 400, 1500})
+		kind := r.Intn(4)
+		for i := 0; i < m; i++ {
+			switch kind {
+			case 0, 1: // half-width katakana, from one half of the range or from all of it
+				lo, hi := 0xA1, 0xDF
+				if kind == 1 {
+					lo, hi = 0xA1, 0xBF
+				}
+				k := lo + r.Intn(hi-lo+1)
+				if enc == "sjis" {
+					b = append(b, byte(k))
+				} else {
+					b = append(b, string(rune(0xFF61+k-0xA1))...)
+				}
+			case 2: // double-byte characters only
+				k := r.Intn(len(sjisAllU))
+				if enc == "sjis" {
+					b = append(b, sjisAllS[2*k], sjisAllS[2*k+1])
+				} else {
+					b = append(b, string(sjisAllU[k])...)
+				}
+			default: // the longest UTF-8 sequences (not representable in Shift_JIS: plain ASCII there)
+				if enc == "utf8" {
+					b = append(b, string(rune(0x1F600+r.Intn(64)))...)
+				} else {
+					b = append(b, byte('a'+r.Intn(26)))
+				}
+			}
+		}
+		return b
+	}
 	// bias: sometimes end the comment with a 0x5c / 0x7c trail character or half-width kana
 	for i := 0; i < n; i++ {
 		var c cchar
